@@ -238,6 +238,103 @@ theorem mem_sweepGo (best : EV) (Rs : List (List Item)) (hok : RunsOK Rs) (i : N
             simp [EV.lt_irrefl] at this
           · exact ⟨x, hx, rfl, hxb, fun y hy => hnd y (List.mem_append_right _ hy)⟩
 
+/-- the repaired sweep (first run accepted unconditionally) is exact with no side condition. -/
+theorem mem_sweepGoFirst (Rs : List (List Item)) (hok : RunsOK Rs) (i : Nat) :
+    i ∈ sweepGoFirst Rs ↔
+      ∃ x ∈ Rs.flatten, x.1 = i ∧ ∀ y ∈ Rs.flatten, domV 2 y.2 x.2 = false := by
+  induction Rs with
+  | nil => simp [sweepGoFirst]
+  | cons R Rs ih =>
+    cases R with
+    | nil => simp only [sweepGoFirst, List.flatten_cons, List.nil_append]; exact ih hok.tail
+    | cons x0 xs =>
+      have hR : ∀ x ∈ x0 :: xs, ∀ y ∈ x0 :: xs, cell x.2 0 = cell y.2 0 :=
+        hok.const _ List.mem_cons_self
+      have hlt := hok.head_lt
+      have hle := colMin_le 1 (cell x0.2 1) xs
+      have hlb : ∀ y ∈ x0 :: xs, EV.le (colMin 1 (cell x0.2 1) xs) (cell y.2 1) = true := by
+        intro y hy
+        rcases List.mem_cons.mp hy with rfl | hy
+        · exact hle.1
+        · exact hle.2 y hy
+      have hat : ∃ y ∈ x0 :: xs, colMin 1 (cell x0.2 1) xs = cell y.2 1 := by
+        rcases colMin_attained 1 (cell x0.2 1) xs with h | ⟨y, hy, h⟩
+        · exact ⟨x0, List.mem_cons_self, h⟩
+        · exact ⟨y, List.mem_cons_of_mem _ hy, h⟩
+      generalize hg : colMin 1 (cell x0.2 1) xs = g at hlb hat
+      obtain ⟨y0, hy0, hy0g⟩ := hat
+      have hlater : ∀ x ∈ x0 :: xs, ∀ y ∈ Rs.flatten, domV 2 y.2 x.2 = false := by
+        intro x hx y hy
+        cases hd : domV 2 y.2 x.2
+        · rfl
+        · have h1 := ((domV2_iff _ _).mp hd).1
+          have := EV.lt_of_lt_of_le (hlt x hx y hy) h1
+          simp [EV.lt_irrefl] at this
+      simp only [sweepGoFirst, hg, List.flatten_cons]
+      rw [List.mem_append, mem_sweepGo g Rs hok.tail]
+      constructor
+      · rintro (h | ⟨x, hx, rfl, hxg, hnd⟩)
+        · simp only [List.mem_map, List.mem_filter] at h
+          obtain ⟨x, ⟨hx, hxg⟩, rfl⟩ := h
+          have hxg : cell x.2 1 = g := by simpa using hxg
+          refine ⟨x, List.mem_append_left _ hx, rfl, ?_⟩
+          intro y hy
+          rcases List.mem_append.mp hy with hy | hy
+          · cases hd : domV 2 y.2 x.2
+            · rfl
+            · obtain ⟨_, _, h | h⟩ := (domV2_iff _ _).mp hd
+              · rw [hR y hy x hx, EV.lt_irrefl] at h; exact Bool.noConfusion h
+              · rw [hxg] at h
+                have := EV.lt_of_le_of_lt (hlb y hy) h
+                simp [EV.lt_irrefl] at this
+          · exact hlater x hx y hy
+        · refine ⟨x, List.mem_append_right _ hx, rfl, ?_⟩
+          intro y hy
+          rcases List.mem_append.mp hy with hy | hy
+          · cases hd : domV 2 y.2 x.2
+            · rfl
+            · have h1 := ((domV2_iff _ _).mp hd).2.1
+              have := EV.lt_of_lt_of_le (EV.lt_of_lt_of_le hxg (hlb y hy)) h1
+              simp [EV.lt_irrefl] at this
+          · exact hnd y hy
+      · rintro ⟨x, hx, rfl, hnd⟩
+        rcases List.mem_append.mp hx with hx | hx
+        · left
+          simp only [List.mem_map, List.mem_filter]
+          refine ⟨x, ⟨hx, ?_⟩, rfl⟩
+          rcases EV.lt_or_eq_of_le (hlb x hx) with h | h
+          · exfalso
+            have hd : domV 2 y0.2 x.2 = true :=
+              (domV2_iff _ _).mpr ⟨by rw [hR y0 hy0 x hx]; exact EV.le_refl _,
+                by rw [← hy0g]; exact hlb x hx, Or.inr (by rw [← hy0g]; exact h)⟩
+            rw [hnd y0 (List.mem_append_left _ hy0)] at hd
+            exact Bool.noConfusion hd
+          · simp [h]
+        · right
+          refine ⟨x, hx, rfl, ?_, fun y hy => hnd y (List.mem_append_right _ hy)⟩
+          have h0 := hnd y0 (List.mem_append_left _ hy0)
+          cases hc : EV.lt (cell x.2 1) g
+          · exfalso
+            have hd : domV 2 y0.2 x.2 = true :=
+              (domV2_iff _ _).mpr ⟨EV.lt_imp_le (hlt y0 hy0 x hx),
+                by rw [← hy0g]; exact EV.le_of_not_lt hc, Or.inl (hlt y0 hy0 x hx)⟩
+            rw [h0] at hd; exact Bool.noConfusion hd
+          · rfl
+
+/-- **the repaired 2-D sweep is exact** (no sentinel hypothesis). -/
+theorem mem_sweep2F (L : List Item) (i : Nat) :
+    i ∈ sweep2F L ↔ ∃ x ∈ L, x.1 = i ∧ (L.any fun y => domV 2 y.2 x.2) = false := by
+  unfold sweep2F
+  have hs := sorted_isort (fun x y : Item => EV.le (cell x.2 0) (cell y.2 0))
+    (fun a b => EV.le_total _ _) (fun a b c => EV.le_trans) L
+  rw [mem_sweepGoFirst _ (runsOK_runs _ hs), runs_flat]
+  simp only [mem_isort, List.any_eq_false]
+  constructor
+  · rintro ⟨x, hx, rfl, hnd⟩
+    exact ⟨x, hx, rfl, fun y hy => by simp [hnd y hy]⟩
+  · rintro ⟨x, hx, rfl, hnd⟩
+    exact ⟨x, hx, rfl, fun y hy => by simpa using hnd y hy⟩
+
 /-- **the 2-D sweep is exact below its sentinel.** -/
 theorem mem_sweep2 (B : EV) (L : List Item) (hB : ∀ x ∈ L, EV.lt (cell x.2 1) B = true) (i : Nat) :
     i ∈ sweep2 B L ↔ ∃ x ∈ L, x.1 = i ∧ (L.any fun y => domV 2 y.2 x.2) = false := by
